@@ -226,7 +226,11 @@ var c17ParentAge = uint64(1)
 
 // attach: what CollectorPool.listenRoutine does with an accepted connection (the listener itself is not driven)
 func (c *c17Coll) attach(a net.Conn) {
-	connA, stopA, err := connection.NewConn(connection.WithNetConn(a), connection.WithContext(c.pool.ctx), connection.KeepaliveInterval(0), connection.KeepaliveTimeout(0))
+	// the pool's own connection options (CopyMsg(false)), then what Listener.Accept adds; keep-alive off (harness)
+	var copts []connection.Option
+	copts = append(copts, c.pool.opts.connOptions...)
+	copts = append(copts, connection.WithContext(c.pool.ctx), connection.WithNetConn(a), connection.KeepaliveInterval(0), connection.KeepaliveTimeout(0))
+	connA, stopA, err := connection.NewConn(copts...)
 	if err != nil {
 		vk.Fatalf("connA: %v", err)
 	}
